@@ -717,6 +717,12 @@ func runDisk(ch *simrt.Chooser, opt Options) RunResult {
 		case "many-values":
 			// more values in one document than any 16-bit counter or fixed budget holds
 			count := []int{65535, 65536, 65537, 70000, 100000, 131073}[s.Draw("many-values", 6)]
+			distinct := s.Draw("many-distinct", 2) == 0
+			base := s.Draw("many-base", 1<<20)
+			if distinct {
+				count = []int{300, 1025, 4097, 20000, 70000}[s.Draw("many-distinct-n", 5)]
+				res.Counters["probe:many-distinct-tokens"]++
+			}
 			var sb strings.Builder
 			if objRoot {
 				sb.WriteString("{\"v\":[")
@@ -727,7 +733,20 @@ func runDisk(ch *simrt.Chooser, opt Options) RunResult {
 				if i > 0 {
 					sb.WriteByte(',')
 				}
-				sb.WriteString([]string{"1", "null", "true", "\"s\"", "2.5"}[i%5])
+				if distinct {
+					// every value a different token (what a parser remembers per token — an intern table, a memo of conversions —
+					// meets more distinct tokens in one document than it has room for)
+					switch i % 3 {
+					case 0:
+						sb.WriteString(strconv.Itoa(i*7 + base))
+					case 1:
+						sb.WriteString(strconv.Itoa(i+base) + ".5")
+					default:
+						sb.WriteString("\"t" + strconv.Itoa(i+base) + "\"")
+					}
+				} else {
+					sb.WriteString([]string{"1", "null", "true", "\"s\"", "2.5"}[i%5])
+				}
 			}
 			if objRoot {
 				sb.WriteString("]}")
